@@ -953,6 +953,18 @@ class Eval:
             if m and re.match(r"^&(?:mut )?\[[^;]*\]$", src):
                 ln = ("call", "core::slice::len", None, (args[0],), None)
                 return ("opt", args[0], frozenset([("pred", ("bin", "Eq", ln, ("const", "usize", int(m.group(1)))))]))
+        # ---- bool::then_some / bool::then: a value that is present exactly when the condition holds ----
+        if cid in ("core::bool::then_some", "std::bool::then_some", "bool::then_some") or (cid.endswith("bool::then_some") and len(args) == 2):
+            if args[0] == ("const", "bool", 1):
+                return ("opt", args[1], frozenset())
+            if args[0] == ("const", "bool", 0):
+                return ("none",)
+            return ("opt", args[1], frozenset([("pred", args[0])]))
+        if cid.endswith("bool::then") and len(args) == 2 and args[1][0] in ("closure", "fnref"):
+            conds = frozenset() if args[0] == ("const", "bool", 1) else frozenset([("pred", args[0])])
+            if args[0] == ("const", "bool", 0):
+                return ("none",)
+            return ("opt", self.apply_under(conds, args[1], [], site, env), conds)
         # ---- Option / Result algebra ----
         v = self.option_algebra(cid, args, site, env)
         if v is not None:
